@@ -1125,5 +1125,55 @@ def no_stale(ctx):
     return stale_cache(ctx, 'NO-STALE-STATE', [],
                        'the reloaded lens depends on what was loaded before', min_methods=0)
 
-RULES = [no_stale, reload_identity, load_pure, c01_init_stores, derived_sync_rule, c12_arg_names, fresh_load, s1_keys, s2_roundtrip, s3_plain, s4_arity, s5_none, s6_optic,
+
+def container_reload(ctx):
+    """every entry a container wrote comes back: the from_dict of the solve,
+    pickup, field and wavelength containers loops over the saved list and adds
+    each rebuilt entry to the new container on every pass, and returns that
+    container"""
+    P = ctx.P
+    res = Result('CONTAINER-RELOAD', 'SolveManager / PickupManager / '
+                 'FieldGroup / WavelengthGroup .from_dict: one entry added '
+                 'per saved entry, unconditionally; the filled container is '
+                 'returned')
+    adders = ('append', 'add', 'add_field', 'add_wavelength', 'insert',
+              'extend')
+
+    def uncond(stmts):
+        for st in stmts:
+            if isinstance(st, (ast.For, ast.With)):
+                yield from uncond(st.body)
+            elif isinstance(st, (ast.Expr, ast.Assign)):
+                yield from (c for c in ast.walk(st) if isinstance(c, ast.Call))
+    for cn in ('SolveManager', 'PickupManager', 'FieldGroup',
+               'WavelengthGroup'):
+        f = P.lookup(cn, 'from_dict')
+        if f is None:
+            raise AnalysisError(f'{cn}.from_dict not found')
+        res.saw(f)
+        made = [st.targets[0].id for st in f.node.body
+                if isinstance(st, ast.Assign) and isinstance(
+                    st.targets[0], ast.Name) and isinstance(
+                    st.value, ast.Call) and isinstance(
+                    st.value.func, ast.Name) and st.value.func.id == 'cls']
+        loops = [st for st in f.node.body if isinstance(st, ast.For) and
+                 'data' in unparse(st.iter)]
+        rets = [st for st in f.node.body if isinstance(st, ast.Return)]
+        ok_ = bool(made) and bool(loops) and any(
+            isinstance(c.func, ast.Attribute) and c.func.attr in adders and
+            unparse(c.func.value).split('.')[0] == made[0] and
+            (c.args or c.keywords)
+            for c in uncond(loops[0].body)) and bool(rets) and \
+            unparse(rets[-1].value) == made[0]
+        if ok_:
+            res.ok(f'{cn}.from_dict: one entry added per saved entry')
+        else:
+            res.fail(ctx.finding(
+                'CONTAINER-RELOAD', f, f.node,
+                f'{cn}.from_dict does not add every saved entry to the '
+                f'container it returns: a reloaded lens has lost them',
+                construct=f'{cn}.from_dict loop'))
+    return res
+
+RULES = [container_reload, no_stale, reload_identity, load_pure, c01_init_stores, derived_sync_rule, c12_arg_names, fresh_load, s1_keys, s2_roundtrip, s3_plain, s4_arity, s5_none, s6_optic,
          s7_kwargs, plain_store, file_wrapper]
